@@ -731,3 +731,36 @@ contract(
     note="non-negative (x, y) tuples, keep_repeated=True (default): the returned cell has the content the two "
          "position maps locate (an empty cell outside), carries the coordinates, and is a fresh node when cloned",
 )
+
+
+# ------------------------------------------------------------------ stored by copy (C01 C08 C10)
+# With clone=True the container stores a copy: the caller's object stays outside the container, so a later use of that
+# object (storing it elsewhere, changing it) cannot reach the table ("an operation changes only what it addresses").
+def _stores_copy(vname, kind, iname):
+    def fn(a, r, p):
+        item = getattr(a, iname)
+        if item is None:
+            return True
+        k = kind(a) if callable(kind) else kind
+        return S.Implies(a.clone, detached(getattr(p, vname), k, item))
+    return Clause("stores-copy", {"C01", "C08", "C10"}, fn)
+
+
+def _kind_of(a):
+    from pyvc.xmlmodel import KIND_OF_MAP
+    return KIND_OF_MAP[a.vault_map_name]
+
+
+for _t, _v, _k, _i in [
+    ("odfdo.element_cached:set_item_in_vault", "vault", _kind_of, "item"),
+    ("odfdo.row:Row.set_cell", "self", "cells", "cell"),
+    ("odfdo.row:Row.insert_cell", "self", "cells", "cell"),
+    ("odfdo.row:Row.append_cell", "self", "cells", "cell"),
+    ("odfdo.table:Table.set_row", "self", "rows", "row"),
+    ("odfdo.table:Table.insert_row", "self", "rows", "row"),
+    ("odfdo.table:Table.append_row", "self", "rows", "row"),
+]:
+    _c = REGISTRY[_t]
+    _cl = _stores_copy(_v, _k, _i)
+    _c.ensures.append(_cl)
+    _c.props |= _cl.props
